@@ -2189,6 +2189,36 @@ def rule_uringmisc(text):
     return text, apps
 
 
+def rule_treeslot(text):
+    """TreeSlot (record.rs): crossbeam-epoch calls -> the opaque epoch surface"""
+    apps = []
+    ws = r"\s*"
+    table = [
+        (r"\bAtomic::new\(", "AtomicCell::new(", "R-handle", "opaque crossbeam_epoch::Atomic<Arc<Record>>"),
+        (r"\bAtomic::null\(\)", "AtomicCell::null()", "R-handle", "opaque crossbeam_epoch::Atomic"),
+        (r"\bOwned::new\(", "OwnedCell::new(", "R-handle", "opaque crossbeam_epoch::Owned"),
+        (r"&" + ws + r"epoch::pin\(\)", "&epoch_pin()", "R-pin", "shim: crossbeam_epoch::pin()"),
+        (r"\bdebug_assert!\(", "debug_check(", "R-dbg", "debug assertion: evaluated, no effect"),
+        (r"\bmem::replace\(&mut" + ws + r"self\.record," + ws + r"AtomicCell::null\(\)\)", "replace_cell(&mut self.record, AtomicCell::null())", "R-take", "shim: mem::replace on the cell"),
+        (r"\bdrop\((\w+)\.into_owned\(\)\)", r"drop_owned(\1.into_owned())", "R-handle", "shim: drop of the owned cell"),
+        (r"\bunsafe" + ws + r"\{" + ws + r"([^{}]*?)" + ws + r"\}", r"\1", "R-unsafe",
+         "`unsafe { call }` -> `call`: the operation's safety condition is the shim's precondition, which the call site must prove"),
+    ]
+    for pat, rep, rname, why in table:
+        n = 0
+        while n < 16:
+            n += 1
+            mm = re.search(pat, text)
+            if not mm:
+                break
+            new = mm.expand(rep)
+            if new == text[mm.start():mm.end()]:
+                break
+            apps.append(_app(rname, text, mm.start(), mm.end(), new, why))
+            text = text[:mm.start()] + new + text[mm.end():]
+    return text, apps
+
+
 def rule_wbshutdown(text):
     """WriteBuffer::{initiate_shutdown, finish_shutdown} (write_buffer.rs)"""
     apps = []
